@@ -5,11 +5,13 @@ kinds of cases
   copy   copy.copy / copy.deepcopy equality, then mutation of every array of the copy
   vcf    VCF text -> DensePhasedGenotypeMatrix / DenseGenotypeMatrix
   frame  data-frame / CSV layouts (breeding values, coancestry, variance matrix, genetic maps, models)
+  copyseq  ONE live object copied repeatedly with in-place changes of earlier copies / the source in between
 """
 import contextlib
 import copy as pycopy
 import json
 import os
+import random
 import shutil
 import tempfile
 from fractions import Fraction
@@ -1068,7 +1070,7 @@ class C16(Prop):
     MODULE = "PybropsModel.Props.C16"
     N_QUICK = 520
     N_THOROUGH = 8000
-    CORRESPONDENCE = ("functional (h5 histories, flat copies, object-graph deep copies, VCF import, all data-frame "
+    CORRESPONDENCE = ("functional (h5 histories, flat copies, copy histories on one live object, object-graph deep copies, VCF import, all data-frame "
                       "layouts incl. the k-way long layout); CSV text is covered by the frame models through the "
                       "abstract dialect contract (cell printing/parsing itself is trusted); interpolation splines "
                       "of genetic maps are compared by behaviour (Spec only, scipy is not modelled)")
@@ -1085,7 +1087,11 @@ class C16(Prop):
             "object saved, changed in place or re-labelled, saved again; an object read back, changed and re-saved) "
             "with interleaved reads and a final from_hdf5 of every location; non-trivial = a location written at "
             "least twice or >= 5 fields present.  "
-            "copy (18%, stratified over 23 classes x 5 ways; the corpus holds every class x way once on a fully labelled grouped "
+            "copyseq (6%, stratified over 23 classes x 5 ways; the corpus holds every class x the four ways once): ONE live "
+            "object copied 2-3 times (the same way again, or another way) with in-place changes of an earlier copy and / or "
+            "of the source in between: every copy must equal the source AS IT IS THEN, be of the same type, not be the source, "
+            "and a deep copy and the source must not see each other's later changes; non-trivial = >= 2 copies of an object with arrays.  "
+            "copy (12%, stratified over 23 classes x 5 ways; the corpus holds every class x way once on a fully labelled grouped "
             "object): copy.copy / copy.deepcopy / .copy() / .deepcopy() after a "
             "short history of in-place steps (statistics, sort / group / prune, buffers overwritten, attributes "
             "re-assigned); genetic maps with auto-built, user-supplied, stale or absent splines of every kind / fill "
@@ -1096,7 +1102,9 @@ class C16(Prop):
             "frame (26%, stratified over 9 classes x pandas/CSV): to_pandas/from_pandas or to_csv/from_csv (dict "
             "variants for models) with matching options (label columns on/off, renamed columns, separators, M/cM "
             "units; on the reading side the columns named by POSITION in a quarter of the cases), two- / three- / four-way variance matrices and their genic / dihybrid twins, sorted and "
-            "unsorted labels, any memory layout, exported twice with an in-place change in between.  "
+            "unsorted labels, any memory layout, exported twice with an in-place change in between; variance matrices (45%) and "
+            "coancestry matrices (25%) with missing estimates = NaN cells: scattered, a parent without any estimate (its whole "
+            "row and column on every taxa axis, every trait), a trait without any estimate, everything.  "
             "vcf (16%): VCF text (plain or gzip) with 1-4 samples x 1-7 records (corpus: 131 samples, 300 records), "
             "unsorted chromosomes, position ties, SNPs / multi-allelic / indels / symbolic / no ALT, FILTER, QUAL, INFO "
             "and extra FORMAT fields, missing IDs, ';'-separated identifier lists, duplicated / case-paired / number- and NA-looking "
@@ -1116,8 +1124,15 @@ class C16(Prop):
                "and values at probe points; deep copying it is copy.deepcopy's default)",
                "constructors of the persistable classes as modelled by Store.construct* (checked on every "
                "generated object through the driver op c16.valid and on every read-back)",
-               "non-finite doubles travel through the value-agnostic storage model as reserved rationals outside "
-               "the binary64 range (injective encoding; -0.0 is identified with 0.0)"]
+               "non-finite doubles travel through the value-agnostic storage model AND the value-agnostic frame models "
+               "(theorems for every value type) as reserved rationals outside "
+               "the binary64 range (injective encoding; -0.0 is identified with 0.0): a NaN cell is a value like any other, "
+               "to_pandas writes its row and from_pandas / from_csv read it back (pandas prints NaN as an empty CSV cell and "
+               "parses it back to NaN: part of the trusted dialect contract)",
+               "copy histories: which object a poke addresses (`who`, field name) is resolved by the driver op c16.copy_hist; the "
+               "theorem copy_after_any_history covers writes to ANY buffer of the heap; that repeated calls of one copying "
+               "routine are independent of each other (no state kept between calls: a shared default memo, a cache on the "
+               "instance) is exactly what the check tests against the model, in which copyObj has no such state"]
     ASSUMPTIONS = ["matrices have at least one taxon / variant / trait (h5py cannot store an empty object array)",
                    "group names are non-empty strings without '..' whose components are not field names of the "
                    "classes stored in the same file; hyper-parameter keys are plain names without '/', their "
@@ -1261,7 +1276,7 @@ class C16(Prop):
             {"kind": "frame", "cls": "sgmap", "ctx": 0, "via": "csv", "opts": {"units": "cM"},
              "fields": {"vrnt_chrgrp": ds("i64", [4], [2, 1, 1, 2]), "vrnt_phypos": ds("i64", [4], [10, 50, 20, 5]),
                         "vrnt_genpos": ds("f64", [4], ["7/64", "1/2", "1/4", "1/64"])}},
-        ] + self._corpus3() + self._corpus4() + self._corpus_copies()
+        ] + self._corpus3() + self._corpus4() + self._corpus_copies() + self._corpus_copyseq() + self._corpus5()
 
     def _corpus_copies(self):
         """every class x every way of copying, on a fully labelled, grouped object (fixed stream): the random
@@ -1556,14 +1571,17 @@ class C16(Prop):
         out = []
         # copies and frames are stratified: classes x ways of copying / exporting are visited in turn
         # (random start), so that a quick run meets every pair
-        kc, kf = rng.randrange(1000), rng.randrange(1000)
+        kc, kf, ks = rng.randrange(1000), rng.randrange(1000), rng.randrange(1000)
         for _ in range(n):
             r = rng.random()
             if r < 0.34:
                 out.append(self._gen_h5(rng))
-            elif r < 0.52:
+            elif r < 0.46:
                 out.append(self._gen_copy(rng, kc))
                 kc += 1
+            elif r < 0.52:
+                out.append(self._gen_copyseq(rng, ks))
+                ks += 1
             elif r < 0.58:
                 out.append(self._gen_graph(rng))
             elif r < 0.84:
@@ -1603,6 +1621,10 @@ class C16(Prop):
                 fields.pop("taxa_grp", None)
             opts = {"taxa_col": rng.choice(["taxa", "näme"]),
                     "taxa_grp_col": rng.choice(["taxa_grp", None]) if "taxa_grp" not in fields else nm("taxa_grp", ["g", "taxa_grp"])}
+            if rng.random() < 0.25:
+                holes = rng.choice(["scatter", "taxon", "all"])
+                fields["mat"] = self._with_holes(rng, fields["mat"], holes)
+                opts["holes"] = holes
         elif cls in self.VM_COLS:
             # the long layout is canonical in label order: taxa and traits sorted (numpy.unique)
             n, t = shape
@@ -1614,6 +1636,12 @@ class C16(Prop):
                 fields.pop("taxa_grp", None)
             # unsorted labels: the read-back must be the same labelled data in sorted label order
             opts = {"grp": "taxa_grp" in fields, "sorted": srt}
+            # crosses without an estimate: NaN cells — scattered, a parent with no estimate at all (its whole row
+            # and column on every axis), a trait that is NaN everywhere, everything
+            if rng.random() < 0.45:
+                holes = rng.choice(["scatter", "scatter", "taxon", "taxon", "trait", "taxon+trait", "all"])
+                fields["mat"] = self._with_holes(rng, fields["mat"], holes)
+                opts["holes"] = holes
             if ren:
                 opts["cols"] = {c + "_col": rng.choice([c, c.upper(), "p_" + c]) for c in self.VM_COLS[cls]}
                 opts["cols"].update({"trait_col": rng.choice(["trait", "Trait ü"]), "variance_col": rng.choice(["variance", "σ²"])})
@@ -1645,6 +1673,59 @@ class C16(Prop):
         var = self._gen_var(rng, cls, fields, shape, history=False)
         var.pop("spline", None)
         return {"kind": "frame", "cls": cls, "fields": fields, "ctx": ctx, "via": via, "opts": opts, "var": var}
+
+    @staticmethod
+    def _with_holes(rng, mat, holes, i0=None, j0=None):
+        """the encoded float array (taxa axes first, traits last when there are >= 3 axes) with NaN cells"""
+        sh = mat["sh"]
+        kt = len(sh) - 1 if len(sh) >= 3 else len(sh)          # number of taxa axes
+        n, t = sh[0], (sh[-1] if len(sh) >= 3 else 1)
+        i0 = rng.randrange(n) if i0 is None else i0
+        j0 = rng.randrange(t) if j0 is None else j0
+        v = list(mat["v"])
+        for flat in range(len(v)):
+            idx, r = [], flat
+            for d in reversed(sh):
+                idx.append(r % d)
+                r //= d
+            idx.reverse()
+            taxa_ix, tr = idx[:kt], (idx[-1] if len(sh) >= 3 else 0)
+            hit = (holes == "all" or (holes == "scatter" and rng.random() < 0.3)
+                   or ("taxon" in holes and i0 in taxa_ix) or ("trait" in holes and tr == j0))
+            if hit:
+                v[flat] = F_NAN
+        return ds(mat["dt"], sh, v)
+
+    def _corpus5(self):
+        """round 5: variance / coancestry matrices with missing (NaN) estimates through the data-frame layouts — a
+        parent without any estimate, a trait without any estimate, scattered holes"""
+        n, t = 4, 2
+        vm = {"mat": ds("f64", [n, n, t], [canon.enc(Fraction(1 + i * 7 % 19, 8)) for i in range(n * n * t)]),
+              "taxa": ds("str", [n], ["P1-Ähre", "P2-Bøg", "P3-Çay", "P4-Dün"]), "taxa_grp": ds("i64", [n], [1, 1, 2, 2]),
+              "trait": ds("str", [t], ["protein", "yield"])}
+        vm3 = {"mat": ds("f64", [2, 2, 2, 2], [canon.enc(Fraction(1 + i * 5 % 17, 4)) for i in range(16)]),
+               "taxa": ds("str", [2], ["a", "b"]), "trait": ds("str", [2], ["t1", "t2"])}
+        cm = {"mat": ds("f64", [3, 3], [canon.enc(Fraction(1 + i * 5 % 17, 4)) for i in range(9)]),
+              "taxa": ds("str", [3], ["a", "b", "c"])}
+        out = []
+        for via in ("pandas", "csv"):
+            for holes in ("taxon", "trait", "scatter", "all"):
+                f = dict(vm, mat=self._with_holes(random.Random(5), vm["mat"], holes, i0=2, j0=0))
+                out.append({"kind": "frame", "cls": "vmat", "fields": f, "ctx": 0, "via": via,
+                            "opts": {"grp": True, "sorted": True, "holes": holes}, "var": {}})
+            f3 = dict(vm3, mat=self._with_holes(random.Random(5), vm3["mat"], "taxon", i0=1))
+            out.append({"kind": "frame", "cls": "vmat3", "fields": f3, "ctx": 0, "via": via,
+                        "opts": {"grp": False, "sorted": True, "holes": "taxon"}, "var": {}})
+            vm4 = {"mat": ds("f64", [2, 2, 2, 2, 2], [canon.enc(Fraction(1 + i * 5 % 23, 4)) for i in range(32)]),
+                   "taxa": ds("str", [2], ["a", "b"]), "taxa_grp": ds("i64", [2], [1, 2]), "trait": ds("str", [2], ["t1", "t2"])}
+            for holes in ("trait", "scatter"):
+                f4 = dict(vm4, mat=self._with_holes(random.Random(7), vm4["mat"], holes, j0=1))
+                out.append({"kind": "frame", "cls": "vmat4", "fields": f4, "ctx": 0, "via": via,
+                            "opts": {"grp": True, "sorted": True, "holes": holes}, "var": {}})
+            fc = dict(cm, mat=self._with_holes(random.Random(5), cm["mat"], "taxon", i0=1))
+            out.append({"kind": "frame", "cls": "cmat", "fields": fc, "ctx": 0, "via": via,
+                        "opts": {"taxa_col": "taxa", "taxa_grp_col": None, "holes": "taxon"}, "var": {}})
+        return out
 
     TWICE_FIELD = {"bvmat": "mat", "cmat": "mat", "vmat": "mat", "vmat3": "mat", "vmat4": "mat", "algmod": "u_a",
                    "adlgmod": "u_d", "sgmap": None, "egmap": None}
@@ -2407,6 +2488,151 @@ class C16(Prop):
         return {"corr": corr, "spec": spec, "nontrivial": deep and obs["narr"] >= 2,
                 "detail": f"copy[{case['cls']},{case['how']}] " + "; ".join(notes + cnotes)[:1200]}
 
+    # ------------------------------------------------------------------ copy histories on one live object
+    @staticmethod
+    def _pokeable(fields):
+        return [k for k, v in fields.items() if isinstance(v, dict) and "dict" not in v and v.get("sh")]
+
+    def _gen_copyseq(self, rng, k=None, cls=None, how=None):
+        """ONE live object, copied more than once (the same way or another way), with in-place changes of an
+        earlier copy and / or of the source in between: every copy must equal the source AS IT IS THEN"""
+        order = list(CLASSES) + ["sgmap"]
+        if k is None:
+            k = rng.randrange(10 ** 6)
+        cls = cls or order[k % len(order)]
+        how = how or self.COPY_HOWS[(k // len(order)) % 5]
+        fields, ctx, grouped, shape = gen_obj(rng, cls, rich=rng.choice([0.5, 1.0, 1.0]), hard=rng.random() < 0.3,
+                                              hardf=False)
+        pk = self._pokeable(fields)
+        ops = [{"t": "copy", "how": how}]
+        if pk:
+            both = rng.random()
+            if both < 0.7:
+                ops.append({"t": "poke", "who": 0, "k": rng.choice(pk)})
+            if both > 0.3:
+                ops.append({"t": "poke", "who": -1, "k": rng.choice(pk)})
+        ops.append({"t": "copy", "how": how if rng.random() < 0.65 else rng.choice(self.COPY_HOWS)})
+        if rng.random() < 0.4:
+            if pk:
+                ops.append({"t": "poke", "who": rng.choice([-1, 0, 1]), "k": rng.choice(pk)})
+            ops.append({"t": "copy", "how": rng.choice([how] + self.COPY_HOWS)})
+        var = self._gen_var(rng, cls, fields, shape, history=False)
+        return {"kind": "copyseq", "cls": cls, "fields": fields, "ctx": ctx, "grouped": grouped, "ops": ops, "var": var}
+
+    def _corpus_copyseq(self):
+        """every class x the four ways of copying: copy, change the copy, change the source, copy again the same way"""
+        import random
+        rng = random.Random(1605)
+        out = []
+        for cls in list(CLASSES):
+            for how in ("obj.deepcopy", "obj.copy", "copy.deepcopy", "copy.copy"):
+                fields, ctx, grouped, shape = gen_obj(rng, cls, rich=1.0)
+                pk = self._pokeable(fields)
+                first = "mat" if "mat" in pk else (pk[0] if pk else None)
+                ops = [{"t": "copy", "how": how}]
+                if first:
+                    ops += [{"t": "poke", "who": 0, "k": first}, {"t": "poke", "who": -1, "k": pk[-1]}]
+                ops += [{"t": "copy", "how": how}]
+                var = {"spline": {"mode": "auto", "kind": "linear", "fill": None}} if cls in ("sgmap", "egmap") else {}
+                out.append({"kind": "copyseq", "cls": cls, "fields": fields, "ctx": ctx, "grouped": True, "ops": ops,
+                            "var": var})
+        return out
+
+    def _impl_copyseq(self, case):
+        cls = case["cls"]
+        o = build(cls, case["fields"], case.get("ctx", 0), case.get("grouped", False), case.get("var"))
+        before = fields_of(cls, o)
+        copies, deep_flags, taken, leaks = [], [], [], []
+        for i, op in enumerate(case["ops"]):
+            if op["t"] == "copy":
+                how = op["how"]
+                deep = "deep" in how
+                src_then = fields_of(cls, o)
+                st_src = state_of(o)
+                others_then = [fields_of(cls, c) for c in copies]
+                c = {"copy.copy": lambda: pycopy.copy(o), "copy.deepcopy": lambda: pycopy.deepcopy(o),
+                     "obj.copy": lambda: o.copy(), "obj.deepcopy": lambda: o.deepcopy()}[how]()
+                ac = arrays_of(cls, c)
+                shares_src = deep and any(numpy.shares_memory(x, y) for _, x in arrays_of(cls, o) for _, y in ac)
+                shares_old = [j for j, cj in enumerate(copies)
+                              if cj is c or any(numpy.shares_memory(x, y) for _, x in arrays_of(cls, cj) for _, y in ac)]
+                taken.append({"i": i, "how": how, "src": src_then, "copy": fields_of(cls, c),
+                              "src_after": fields_of(cls, o), "state_diff": diff_state(st_src, state_of(c)),
+                              "same_type": type(c) is type(o), "is_src": c is o,
+                              "is_earlier": [j for j, cj in enumerate(copies) if cj is c],
+                              "shares_src": bool(shares_src), "shares_earlier": shares_old if deep else [],
+                              "others_moved": [j for j, cj in enumerate(copies) if fields_of(cls, cj) != others_then[j]]})
+                copies.append(c)
+                deep_flags.append(deep)
+            else:
+                who = op["who"]
+                tgt = o if who < 0 else (copies[who] if who < len(copies) else None)
+                a = getattr(tgt, op["k"], None) if tgt is not None else None
+                if not isinstance(a, numpy.ndarray) or a.shape == ():
+                    continue
+                snap_src = fields_of(cls, o)
+                snap = [fields_of(cls, c) for c in copies]
+                bump_inplace(a)
+                # a deep copy and the source must not see each other's in-place changes
+                if who >= 0 and deep_flags[who] and fields_of(cls, o) != snap_src:
+                    leaks.append({"i": i, "poked": who, "moved": "source"})
+                if who < 0:
+                    for j, c in enumerate(copies):
+                        if deep_flags[j] and fields_of(cls, c) != snap[j]:
+                            leaks.append({"i": i, "poked": "source", "moved": j})
+        return {"before": before, "taken": taken, "leaks": leaks, "final_src": fields_of(cls, o),
+                "final_copies": [fields_of(cls, c) for c in copies], "narr": len(arrays_of(cls, o))}
+
+    def _req_copyseq(self, case, obs):
+        mops = [{"t": "copy", "deep": "deep" in op["how"]} if op["t"] == "copy" else op for op in case["ops"]]
+        return [{"op": "c16.copy_hist", "obj": obs["before"], "ops": mops}] + \
+               [{"op": "c16.spec_obj", "cls": "any", "want": t["src"], "got": t["copy"]} for t in obs["taken"]]
+
+    def _judge_copyseq(self, case, obs, answers):
+        m = answers[0]["ok"]
+        notes, cnotes = [], []
+        corr = len(m["taken"]) == len(obs["taken"]) and len(m["final_copies"]) == len(obs["final_copies"])
+        if corr:
+            for n, (mt, it) in enumerate(zip(m["taken"], obs["taken"])):
+                for k in ("copy", "src"):
+                    if not self._same_obj(mt[k], it[k]):
+                        corr = False
+                        cnotes.append(f"copy #{n} {k}: model={json.dumps(mt[k])[:200]} impl={json.dumps(it[k])[:200]}")
+                if "deep" in it["how"] and (not mt["fresh"]) != bool(it["shares_src"] or it["shares_earlier"]):
+                    corr = False
+                    cnotes.append(f"copy #{n}: fresh buffers model={mt['fresh']} impl shares src={it['shares_src']} "
+                                  f"earlier={it['shares_earlier']}")
+            if not self._same_obj(m["final_src"], obs["final_src"]):
+                corr = False
+                cnotes.append(f"final source: model={json.dumps(m['final_src'])[:200]} impl={json.dumps(obs['final_src'])[:200]}")
+            for n, (mc, ic) in enumerate(zip(m["final_copies"], obs["final_copies"])):
+                if not self._same_obj(mc, ic):
+                    corr = False
+                    cnotes.append(f"final copy #{n}: model={json.dumps(mc)[:200]} impl={json.dumps(ic)[:200]}")
+        else:
+            cnotes.append("number of copies differs")
+        spec = True
+        for n, t in enumerate(obs["taken"]):
+            eq = answers[1 + n]["ok"]
+            deep = "deep" in t["how"]
+            if not eq["ok"] or not t["same_type"] or t["state_diff"]:
+                spec = False
+                notes.append(f"copy #{n} ({t['how']}, step {t['i']}) differs from its source as it is at that moment in "
+                             f"{eq['diff']} {t['state_diff']} (same type: {t['same_type']}; it IS earlier copy "
+                             f"{t['is_earlier']})")
+            if t["is_src"] or t["src_after"] != t["src"]:
+                spec = False
+                notes.append(f"copy #{n} is the source itself or taking it changed the source")
+            if deep and t["shares_src"]:
+                spec = False
+                notes.append(f"deep copy #{n} shares buffers with its source")
+        for lk in obs["leaks"]:
+            spec = False
+            notes.append(f"in-place change of {lk['poked']} at step {lk['i']} shows in {lk['moved']} (deep copy / source)")
+        ncopy = len(obs["taken"])
+        return {"corr": corr, "spec": spec, "nontrivial": ncopy >= 2 and obs["narr"] >= 1,
+                "detail": f"copyseq[{case['cls']},{[o.get('how', 'poke') for o in case['ops']]}] " + "; ".join(notes + cnotes)[:1400]}
+
     # ------------------------------------------------------------------ implementation
     def run_impl(self, case):
         return getattr(self, "_impl_" + case["kind"])(case)
@@ -2656,7 +2882,7 @@ class C16(Prop):
     # ------------------------------------------------------------------ findings, shrinking
     def signature(self, case, obs, verdict):
         sig = {"kind": case.get("kind")}
-        if case.get("kind") in ("copy", "frame", "graph"):
+        if case.get("kind") in ("copy", "frame", "graph", "copyseq"):
             sig["cls"] = case.get("cls")
         if case.get("kind") == "h5":
             sig["site"] = verdict.get("site")
@@ -3116,6 +3342,29 @@ class C16(Prop):
                 kw["vrnt_genpos_col"] -= 1
             return sg_from_pandas(cls, df, *a, **kw)
 
+        # --- round 5 ---------------------------------------------------------------------------
+        shared_memo = {}
+
+        def dm_deepcopy_shared_default_memo(self, memo=None):
+            # `memo: dict = {}`: ONE dictionary for all calls without a memo argument
+            return pycopy.deepcopy(self, shared_memo if memo is None else memo)
+
+        def vm_to_pandas_skips_missing(self, *a, **kw):
+            df = vm_to_pandas(self, *a, **kw)
+            vc = kw.get("variance_col", "variance")
+            return df[~df[vc].isna()].reset_index(drop=True)
+
+        cm_from_pandas0 = CM.from_pandas.__func__
+
+        def cm_from_pandas_dropna(cls, df, *a, **kw):
+            return cm_from_pandas0(cls, df.dropna(), *a, **kw)
+
+        round5 = [
+            ("base_matrix_deepcopy_method_shared_default_memo", lambda: patch_attr(DM, "deepcopy", dm_deepcopy_shared_default_memo)),
+            ("vmat_to_pandas_skips_missing_estimates", lambda: patch_attr(VM, "to_pandas", vm_to_pandas_skips_missing)),
+            ("cmat_from_pandas_drops_incomplete_rows", lambda: patch_attr(CM, "from_pandas", classmethod(cm_from_pandas_dropna))),
+        ]
+
         round4 = [
             ("gmap_from_pandas_integer_column_shifted", lambda: patch_attr(SG, "from_pandas", classmethod(sg_from_pandas_positions_shifted))),
             ("tp_to_hdf5_makes_no_group", lambda: patch_attr(TP, "to_hdf5", tp_to_hdf5_no_group)),
@@ -3134,7 +3383,7 @@ class C16(Prop):
             ("base_matrix_deepcopy_returns_view", lambda: patch_attr(DM, "__deepcopy__", dm_deep_view)),
         ]
 
-        return round4 + [
+        return round5 + round4 + [
             ("write_dict_skip_delete_existing", lambda: patch_name("h5py_File_write_dict", write_no_delete)),
             ("write_dict_keep_first_dataset", lambda: patch_name("h5py_File_write_dict", write_keep_first)),
             ("write_dict_group_collapsed", lambda: patch_name("h5py_File_write_dict", write_wrong_group)),
